@@ -288,6 +288,9 @@ func (e *Engine) directive(h *Harness, sp *ssa.Package, line string) error {
 	case "timeout":
 		a, _ := arg()
 		h.timeoutMs, _ = strconv.Atoi(a)
+	case "jobs":
+		a, _ := arg()
+		h.jobs, _ = strconv.Atoi(a)
 	case "budget":
 		a, _ := arg()
 		h.budgetS, _ = strconv.Atoi(a)
